@@ -1,18 +1,27 @@
 """C19 — operations never mutate caller data and never hand out live internal state.
 
-Proof obligations: Props/C19.v (store model with sharing; noninterference for every operation whose effect
-summary is copy-only, by induction over arbitrary client mutation histories; a witness per unsafe effect kind).
-PARTIAL by design: the deciding work is the differential below.
+Proof obligations: Props/C19.v -- (1) store model with sharing: noninterference for every operation whose effect summary is
+copy-only, by induction over arbitrary client mutation histories, a witness per unsafe effect kind; (2) intake model
+(Struct/AliasIntake.v): which isinstance tables of typedpy's defensive-copy decisions keep an ImmutableStructure / a field
+declared immutable from sharing caller-mutable objects, for every declared type and every argument shape; a leaking value for
+every unsafe table entry; typed fields of mutable owners by induction over the type.  PARTIAL by design: the deciding work is
+the differential below.
 
 Tie to the code:
-  * Gen/AliasSites.v is regenerated from the AST of /repo on every run (harness/aliasgen.py): the effect kind of
-    each copy / alias site (_ListStruct.__init__, Array.serialize short-cuts, convert_dict, required.remove, ...).
-  * correspondence: for every generated (operation, class, field type) the effect OBSERVED on the real
-    implementation -- deep snapshot of every argument before/after, then mutation of every container of every
-    argument and of every returned object, comparing instance / class fingerprints -- is compared inside Coq
-    with the effect the model predicts from the generated sites (Check/C19chk.v, vm_compute).
-  * the property's clauses are evaluated directly on the observations; a violation is keyed by effect kind,
-    call site and the type path of the offending container."""
+  * Gen/AliasSites.v (harness/aliasgen.py) and Gen/AliasTables.v (harness/genmods/alias_tables.py) are regenerated from the
+    AST of /repo on every run: the effect kind of each copy / alias site (_ListStruct.__init__, Array.serialize short-cuts,
+    convert_dict, required.remove, ...) and the isinstance tuples of Structure.__setattr__, Field.__set__,
+    ImmutableMixin._get_defensive_copy_if_needed (module constants resolved), the wrappers' copy gates, the Map exception.
+  * correspondence: for every generated (operation, owner kind, field type, ARGUMENT SHAPE) the effect OBSERVED on the real
+    implementation -- deep snapshot of every argument before/after, then mutation of every caller-mutable object of every
+    argument (below tuples, frozensets, plain objects, wrappers of other instances; Structure instances too when the owner
+    promises a copy) and of every returned object, comparing instance / class fingerprints -- is compared inside Coq with the
+    effect the model predicts from the generated facts (Check/C19chk.v, vm_compute).
+  * the property's clauses are evaluated directly on the observations; a violation is keyed by effect kind, call site and the
+    path (declared types, then python kinds below an untyped position) of the offending object.
+Streams: random classes (plain / FastSerializable / ImmutableStructure, fields declared immutable); the deterministic lattice
+owner kind x field type with an untyped position x python kind of the value there; wrapper mutators; failing construction /
+deserialization; Versioned deserialization; schema_to_struct_code; structure_to_schema; derivation; convert_dict."""
 import collections
 import copy
 import inspect
@@ -1438,10 +1447,12 @@ def run(rep, tier):
     rep.assumptions += [
         "PARTIAL: the theorem covers the aliasing logic of effect summaries; which summary each typedpy operation has is "
         "established by the generated site facts and by the before/after differential, not by proof over the Python code",
-        "scope: typed fields (no Anything / untyped Array, Map, Deque, Set position at any depth) and every field of an "
-        "ImmutableStructure; untyped positions of mutable structures are handed by reference by design: they are checked "
-        "against the model's prediction but never reported as violations",
-        "Structure instances passed as arguments are shared by reference (object composition); mutation does not descend into them",
+        "scope: typed fields (no Anything / untyped Array, Map, Deque, Set position at any depth), every field of an "
+        "ImmutableStructure and every field declared immutable (ImmutableField mixin); untyped positions of mutable owners are "
+        "handed by reference by design: they are checked against the model's prediction but never reported as violations",
+        "Structure instances passed as arguments to a MUTABLE owner are shared by reference (object composition): mutation does "
+        "not descend into them; an immutable owner must copy them, there they are mutated like any other argument",
+        "getters (x.f, x.f[i], iteration) are not operations of the property and are not examined",
         "the definitions dict of structure_to_schema is the documented accumulator and is excepted",
     ]
     fail_fast0 = getattr(Structure, "_fail_fast", True)
@@ -1487,7 +1498,8 @@ def run(rep, tier):
         for t in LATTICE_TYPES:
             if owner == "immfield" and t[0] not in IMM_ELIGIBLE:
                 continue
-            for zname, zval in ZOO:
+            randoms = [("random", (gen_hashable(rnd) if t[0] == "set" else gen_anyval(rnd))) for _ in range(2 if tier == "quick" else 14)]
+            for zname, zval in ZOO + [(n, 0 if v is None else v) for n, v in randoms]:
                 if t[0] == "set" and not zoo_hashable(zval):
                     continue
                 li += 1
@@ -1763,8 +1775,10 @@ def run(rep, tier):
         from harness.props.c17 import broken_build
         broken_build(rep)
     return rep.finish(
-        rule="cases = (operation, generated class, field type) with operations construct / setattr / Deserializer (plain, function, "
-             "mapper, trusted) / Serializer (plain, function, mapper) / FastSerializable.serialize, plus failing construct/deserialize, "
-             "schema_to_struct_code, schema_definitions_to_code, structure_to_schema, Partial/Omit/Pick/Extend/AllFieldsRequired, "
-             "convert_dict; every argument deep-snapshotted before/after, every container of every argument and result mutated, "
-             "instance/class fingerprints compared; non-trivial = non-scalar field type; distinct = (operation, class kind, type)")
+        rule="cases = (operation, generated class, owner kind, field type, argument shape) with operations construct / setattr / "
+             "Deserializer (plain, function, mapper, trusted) / Serializer (plain, function, mapper) / FastSerializable.serialize / "
+             "wrapper mutators, plus failing construct/deserialize, Versioned deserialization, schema_to_struct_code, "
+             "schema_definitions_to_code, structure_to_schema, Partial/Omit/Pick/Extend/AllFieldsRequired, convert_dict; random "
+             "classes + the deterministic lattice owner x untyped-position type x python kind of value; every argument "
+             "deep-snapshotted before/after, every caller-mutable object of every argument and result mutated, instance/class "
+             "fingerprints compared; non-trivial = non-scalar field type; distinct = (operation, class kind, owner, type, shape)")
